@@ -9,6 +9,7 @@ import torch
 import torch.nn as nn
 from plinio.graph.features_calculation import ConstFeaturesCalculator, ModAttrFeaturesCalculator, FlattenFeaturesCalculator, \
     ConcatFeaturesCalculator
+from plinio.graph.inspection import is_features_concatenate, is_concatenate
 from plinio.methods.pit.nn.conv1d import PITConv1d
 from plinio.methods.pit.nn.conv2d import PITConv2d
 from plinio.methods.pit.nn.linear import PITLinear
@@ -115,6 +116,16 @@ def h_elementwise_and_depthwise(H, discrete):
         H.ensure('propagate:exported-width-is-producer-exported-width', c.in_features_opt == p.out_features_opt)
 
 
+def h_concat_axis(H, dim, as_kwarg):
+    """only a concatenation over the channel axis (dim 1) sums input features; any other axis (time / spatial, also written as a
+    negative index) leaves the channel count alone"""
+    n = H.fx_function_node(torch.cat, 2, () if as_kwarg else (dim,), {'dim': dim} if as_kwarg else {})
+    H.ensure('concat-axis:features-concat-only-over-the-channel-axis', is_features_concatenate(n, None) == (dim == 1))
+    H.ensure('concat-axis:recognised-as-concatenation', is_concatenate(n, None))
+    m = H.fx_function_node(torch.add, 2)
+    H.ensure('concat-axis:other-functions-are-not-concatenations', not is_features_concatenate(m, None) and not is_concatenate(m, None))
+
+
 PROPERTY = {
     'C09': dict(
         level='other',
@@ -143,6 +154,9 @@ HARNESSES = [
          thorough=[dict(origin=o, mult=m, discrete=d) for o in 'sf' for m in (1, 2, 3, 4) for d in _B]),
     dict(name='two-flattens-concat', fn='h_two_flattens_concat', property=['C09'], functions=[_G + 'FlattenFeaturesCalculator.register', _G + 'ConcatFeaturesCalculator.register'],
          quick=[dict(mult=2), dict(mult=1)], thorough=[dict(mult=m) for m in (1, 2, 3)]),
+    dict(name='concat-axis', fn='h_concat_axis', property=['C09'],
+         functions=['plinio/graph/inspection.py::is_features_concatenate', 'plinio/graph/inspection.py::is_concatenate', 'plinio/graph/utils.py::try_get_args'],
+         quick=[dict(dim=d, as_kwarg=k) for d in (0, 1, 2, 3, -1, -2) for k in _B], thorough=[dict(dim=d, as_kwarg=k) for d in (0, 1, 2, 3, -1, -2, -3) for k in _B]),
     dict(name='propagate', fn='h_elementwise_and_depthwise', property=['C09'], functions=[_G + 'ModAttrFeaturesCalculator.features', _G + 'ModAttrFeaturesCalculator.features_mask'],
          quick=[dict(discrete=d) for d in _B], thorough=[dict(discrete=d) for d in _B]),
 ]
